@@ -29,7 +29,7 @@ def gates(tier):
     return {'calls': 40000, 'returned_results': 25000, 'raised': 500, 'long_form_results': 1200, 'entries_checked': 8000,
             'partial_grades': 800, 'attempt_credit_calls': 1500, 'debug_on_results': 800, 'debug_off_results': 4000,
             'class:StringGrader': 300, 'class:FormulaGrader': 300, 'class:NumericalGrader': 300, 'class:MatrixGrader': 300,
-            'class:SingleListGrader': 300, 'class:IntervalGrader': 300, 'class:SumGrader': 200, 'class:ListGrader': 800, 'shared_debug_calls': 800, 'registered_defaults_calls': 400}
+            'class:SingleListGrader': 300, 'class:IntervalGrader': 300, 'class:SumGrader': 200, 'class:ListGrader': 800, 'shared_debug_calls': 800, 'registered_defaults_calls': 400, 'random_option_combinations': 1500}
 
 
 def has_pin(desc):
@@ -260,7 +260,7 @@ def run(ctx):
     F = GG.Factory(rng)
     scheds = schedules()
     for i in range(ctx.n(12000, 200000)):
-        case = F.any()
+        case = F.any() if i % 4 else F.random_config()
         ctx.count('class:' + case['cls'])
         debug = rng.random() < 0.25
         sname, sched = rng.choice(scheds)
@@ -271,8 +271,13 @@ def run(ctx):
         try:
             g = case['make'](**ov)
         except Exception as exc:  # noqa
+            if case.get('random_config'):
+                ctx.count('random_option_combinations_rejected')      # a cross-option rule refused the combination: nothing to grade
+                continue
             ctx.inconclusive_because('harness: generated configuration rejected: %r %r' % (case['desc'], exc))
             return
+        if case.get('random_config'):
+            ctx.count('random_option_combinations')
         for kind, inp in inputs_for(rng, case, ctx.pick(6, 10)):
             attempt = rng.choice([1, 2, 3, 7, 50, 0, -2])
             kwargs = {'attempt': attempt} if sched is not None else {}
